@@ -38,6 +38,7 @@ pub fn base_spec(c: &Cfg, seed: u64) -> CaseSpec {
         // to a 13 M event cap costs a quarter of an hour and 2 GB per shard)
         max_events: if n > 5000 { 6 * (4 * n as usize + 8) } else { (50 * (4 * n as usize + 8)).max(10_000) },
         pre_existing: 0,
+        write_rearm_at_recv: None,
     }
 }
 
@@ -206,6 +207,22 @@ pub fn fam_timeouts(b: &Base, silence: bool, out: &mut Vec<CaseSpec>) {
                         s.rules.push(Rule::DropFirst { dir: adir, is_data: false, abs, count: r })
                     }));
                 }
+            }
+        }
+    }
+}
+
+/// a transient write error: the j-th chunk write fails, later writes succeed again (failpoint disarmed at a later receive
+/// call), while a duplicated DATA block makes the receiver flush in mid-window
+pub fn fam_transient_write(b: &Base, out: &mut Vec<CaseSpec>) {
+    for j in 0..b.spec.nblocks().min(6) {
+        for idx in 0..b.n_p2w.min(8) {
+            for later in [1u64, 2, 3] {
+                out.push(with(b, "transientwrite", format!("fail-after{j}:dup#{idx}:rearm+{later}"), |s| {
+                    s.write_budget = Some(j);
+                    s.write_rearm_at_recv = Some(idx as u64 + 1 + later);
+                    s.rules.push(Rule::Idx { dir: Dir::P2W, idx, act: Act::Dup });
+                }));
             }
         }
     }
@@ -507,6 +524,15 @@ pub fn fam_pre_existing(b: &Base, out: &mut Vec<CaseSpec>) {
 
 /// ERROR packets with long multi-byte messages at every step (they only survive the receive buffer with blksize >= 512)
 pub fn fam_error_texts(b: &Base, out: &mut Vec<CaseSpec>) {
+    // every ERROR code 0..7 with a short message, at every point (any block size)
+    for j in 0..=b.peer_outs {
+        for code in 0..8u8 {
+            out.push(with(b, "errorcode", format!("at#{j}:code{code}"), |s| {
+                s.peer.error_at = Some(j);
+                s.peer.error_text = 100 + code;
+            }));
+        }
+    }
     if b.spec.b < 512 {
         return;
     }
